@@ -401,6 +401,79 @@ def check_timed(case, rec):
     return fails
 
 
+# ---- expiry while ANOTHER thread holds the receive lock ---------------------------------------------------------------
+def check_held(case, rec):
+    import rpyc
+    from rpyc.core import consts
+    from rpyc.core.channel import Channel
+    from rpyc.core.async_ import AsyncResultTimeout
+    T, S, reply = case["T"], case["S"], case["reply"]
+    rec.case(case, reply is None or abs(reply - T) <= 2 * EPS or reply > T, ["held-lock", "reply:%s" % ("never" if reply is None else "at-%s" %
+                                                                                                ("<T" if reply < T else ">T"))])
+    k = sk.Kernel(max_time=500.0)
+    out = {}
+    fails = []
+    with k.installed():
+        link = sk.Link(k)
+        conn = rpyc.VoidService()._connect(Channel(link.a), {})
+        peer = RawPeer(link.b, strict=False)
+        stop = [False]
+
+        def loop_server():
+            try:
+                while not stop[0]:
+                    conn.serve(S)
+            except EOFError:
+                pass
+
+        def peer_task():
+            m = peer.recv_msg()
+            if reply is not None:
+                k.sleep(reply)
+                peer.reply(m[1], box_value("the-value"))
+            while True:
+                peer.recv_msg()
+
+        def driver():
+            k.spawn(loop_server, name="loop-server", daemon=True)
+            k.sleep(0.01)                  # the serving thread now sits in poll() holding the receive lock
+            t0 = k.now
+            res = conn.async_request(consts.HANDLE_PING, "tok", timeout=T)
+            try:
+                out["r"] = ["value", res.value]
+            except AsyncResultTimeout:
+                out["r"] = ["timeout"]
+            out["dt"] = k.now - t0
+            stop[0] = True
+        k.spawn(peer_task, name="peer", daemon=True)
+        t = k.spawn(driver, name="driver")
+        k.run()
+        if t.exc is not None:
+            fails.append(Failure("driver-raised", type(t.exc).__name__, case, (t.exc_tb or "")[-300:]))
+        elif k.deadlock:
+            fails.append(Failure("hang", "waiter never returned although its expiry passed", case, k.deadlock))
+        else:
+            if reply is not None and abs(reply - T) <= 1e-9:
+                pass
+            elif reply is not None and reply < T:
+                if out["r"] != ["value", "the-value"] or abs(out["dt"] - reply) > 1e-6:
+                    fails.append(Failure("held-lock", "value not delivered at arrival while another thread holds the receive lock", case,
+                                         [out["r"], out["dt"]], ["value", reply]))
+            else:
+                if out["r"] != ["timeout"]:
+                    fails.append(Failure("held-lock", "no timeout error although the expiry came first", case, [out["r"], out["dt"]]))
+                elif abs(out["dt"] - T) > 1e-6:
+                    fails.append(Failure("held-lock", "timeout %s than the expiry instant while another thread holds the receive lock" %
+                                         ("earlier" if out["dt"] < T else "later"), case, out["dt"], T))
+        conn._closed = True
+    return fails
+
+
+def held_cases():
+    return st.fixed_dictionaries({"part": st.just("held"), "T": st.sampled_from([0.5, 1.0, 2.0]), "S": st.sampled_from([0.3, 1.0, 5.0, 30.0]),
+                                  "reply": st.one_of(st.none(), st.sampled_from([0.1, 0.5 - EPS, 0.5 + EPS, 1.5, 3.0]))})
+
+
 def event_cases():
     base = st.sampled_from([0.5, 1.0, 2.0])
 
@@ -438,12 +511,14 @@ def plan(tier, scale):
     else:
         ne, ns, nt, sh = 12000, 1000, 1000, 12
     return ([{"part": "events", "n": int(ne * scale)} for _ in range(sh)] + [{"part": "sync", "n": int(ns * scale)}]
-            + [{"part": "timed", "n": int(nt * scale)}])
+            + [{"part": "timed", "n": int(nt * scale)}] + [{"part": "held", "n": int(nt * scale)}])
 
 
 def run_shard(desc, seed, rec, tier):
     if desc["part"] == "events":
         drive(rec, event_cases(), lambda c: check_events(c, rec), desc["n"], seed)
+    elif desc["part"] == "held":
+        drive(rec, held_cases(), lambda c: check_held(c, rec), desc["n"], seed)
     elif desc["part"] == "sync":
         drive(rec, sync_cases(), lambda c: check_sync(c, rec), desc["n"], seed)
     else:
@@ -451,4 +526,4 @@ def run_shard(desc, seed, rec, tier):
 
 
 def replay(case, rec):
-    return {"events": check_events, "sync": check_sync, "timed": check_timed}[case["part"]](case, rec)
+    return {"events": check_events, "sync": check_sync, "timed": check_timed, "held": check_held}[case["part"]](case, rec)
